@@ -997,6 +997,7 @@ def _prepare_summaries(trees):
 
 # ------------------------------------------------------------------ N6 named values (aliases of stable pure expressions)
 
+_CONTENT_PREDICATES = {"safe_eq", "is_list", "is_dict", "is_atom", "is_empty", "in_map", "bool"}
 PURE_DOTTED = {"os.path.join", "os.path.dirname", "os.path.basename", "os.path.exists"}
 MUTATORS = {"append", "extend", "insert", "pop", "remove", "clear", "update", "add", "discard", "sort", "reverse", "popitem", "setdefault", "appendleft", "popleft"}
 
@@ -1056,6 +1057,9 @@ def _stable_expr0(e, stable, mutated, attr_stores, self_unstable):
         if d == "len" and len(e.args) == 1 and isinstance(e.args[0], ast.Name):
             return e.args[0].id in stable and e.args[0].id not in mutated
         if d in ("isinstance", "issubclass", "callable", "type") or d in PURE_DOTTED:
+            return all(_stable_expr0(a, stable, mutated, attr_stores, self_unstable) for a in e.args)
+        if d in _CONTENT_PREDICATES:
+            # reads the contents of its operands: the caller (_named_values) checks that nothing changes them up to the last use
             return all(_stable_expr0(a, stable, mutated, attr_stores, self_unstable) for a in e.args)
     return False
 
@@ -1117,6 +1121,7 @@ def _named_values(fn, self_unstable=None):
         loop_targets = {x.id for n in _walk_local(fn) if isinstance(n, (ast.For, ast.AsyncFor)) for x in ast.walk(n.target) if isinstance(x, ast.Name)}
         loop_targets |= {x.id for n in _walk_local(fn) if isinstance(n, (ast.While, ast.For, ast.AsyncFor)) for s_ in n.body for x in ast.walk(s_) if isinstance(x, ast.Name) and isinstance(x.ctx, ast.Store)}
         never_stored = {p for p in params if p not in stores} | {"self"}
+        scoped_decl = {nm for n in ast.walk(fn) if isinstance(n, (ast.Nonlocal, ast.Global)) for nm in n.names}
         free = {k for k in loads if k not in stores and k not in params}      # globals / builtins / enclosing names
         changed = False
         # inside the body of a for loop, a target name bound by that loop only is one value per iteration
@@ -1144,6 +1149,9 @@ def _named_values(fn, self_unstable=None):
                 single_before = {k for k, v_ in stores.items() if len(v_) == 1 and isinstance(v_[0], ast.Name) and k != v and
                                  (getattr(v_[0], "lineno", 10**9), getattr(v_[0], "col_offset", 0)) < (st.lineno, st.col_offset) and k not in loop_targets}
                 stable = never_stored | free | single_before | loop_stable.get(id(blk), set())
+                # any other local: its value is one value between the definition and the last use as long as nothing in between stores it
+                # (checked below, statement by statement, nested blocks included)
+                stable |= {k for k in stores if k != v and k not in scoped_decl}
                 # mutation of the operands is judged for the statements between the definition and its last use (below)
                 if not _stable_expr(st.value, stable, set(), set(), self_unstable):
                     continue
@@ -1172,12 +1180,17 @@ def _named_values(fn, self_unstable=None):
                 for x in ast.walk(st.value):
                     if isinstance(x, ast.Subscript):
                         content_names |= {n_.id for n_ in ast.walk(x.value) if isinstance(n_, ast.Name)}
-                    elif isinstance(x, ast.Call) and isinstance(x.func, ast.Name) and x.func.id == "len":
+                    elif isinstance(x, ast.Call) and isinstance(x.func, ast.Name) and (x.func.id == "len" or x.func.id in _CONTENT_PREDICATES):
                         content_names |= {n_.id for a_ in x.args for n_ in ast.walk(a_) if isinstance(n_, ast.Name)}
                 content_dependent = bool(content_names)
                 dirty = False
                 for k in range(i + 1, last + 1):
-                    for x in ast.walk(blk[k]):
+                    scope_ = blk[k]
+                    if k == last and isinstance(scope_, ast.If):
+                        in_test = {id(x) for x in ast.walk(scope_.test)}
+                        if all(id(u) in in_test for u in uses if any(u is y for y in ast.walk(scope_))):
+                            scope_ = scope_.test          # the branches run after the last read of the value
+                    for x in ast.walk(scope_):
                         if isinstance(x, (ast.Subscript, ast.Attribute)) and isinstance(x.ctx, (ast.Store, ast.Del)):
                             b_ = x.value
                             while isinstance(b_, (ast.Subscript, ast.Attribute)):
@@ -1452,6 +1465,37 @@ def _splice_starred_literals(fn):
         elts = sub.value.elts
         if all(isinstance(e, (ast.Name, ast.Constant)) for e in elts) and -len(elts) <= sub.slice.value < len(elts):
             _replace_node(fn, sub, elts[sub.slice.value])
+            n += 1
+    return n
+
+
+# ------------------------------------------------------------------ N11 rotated loops: `while True: if c: break; body` -> `while not c: body`
+
+def _negate(t):
+    if isinstance(t, ast.UnaryOp) and isinstance(t.op, ast.Not):
+        return t.operand
+    if isinstance(t, ast.BoolOp):
+        return ast.copy_location(ast.BoolOp(op=ast.Or() if isinstance(t.op, ast.And) else ast.And(), values=[_negate(v) for v in t.values]), t)
+    if isinstance(t, ast.Compare) and len(t.ops) == 1:
+        flip = {ast.Is: ast.IsNot, ast.IsNot: ast.Is, ast.Eq: ast.NotEq, ast.NotEq: ast.Eq, ast.In: ast.NotIn, ast.NotIn: ast.In}.get(type(t.ops[0]))
+        if flip is not None:
+            return ast.copy_location(ast.Compare(left=t.left, ops=[flip()], comparators=t.comparators), t)
+    return ast.copy_location(ast.UnaryOp(op=ast.Not(), operand=t), t)
+
+
+def _rotate_loops(fn):
+    n = 0
+    for w in [x for x in _walk_local(fn) if isinstance(x, ast.While)]:
+        if not (isinstance(w.test, ast.Constant) and w.test.value is True) or w.orelse:
+            continue
+        body = [s_ for s_ in w.body if not isinstance(s_, ast.Pass)]
+        if len(body) < 2:
+            continue
+        first = body[0]
+        if isinstance(first, ast.If) and not first.orelse and len(first.body) == 1 and isinstance(first.body[0], ast.Break) and \
+                not any(isinstance(x, (ast.NamedExpr, ast.Await, ast.Yield, ast.YieldFrom)) for x in ast.walk(first.test)):
+            w.test = _negate(first.test)
+            w.body = body[1:]
             n += 1
     return n
 
@@ -1794,6 +1838,7 @@ def normalize(modname, tree):
                 stats["named_values"] += _named_values(n, unstable.get(n))
                 stats["named_conditions"] += _named_conditions(n)
                 stats["comprehensions"] += _loops_to_comprehensions(n)          # loops whose body became one statement by the passes above
+                stats["rotated_loops"] = stats.get("rotated_loops", 0) + _rotate_loops(n)
                 progress += k + _splice_starred_literals(n)
         if not progress or inv is None:
             break
